@@ -46,6 +46,7 @@ type interpreter struct {
 	inStdInit          bool
 	fnvStreams         map[*value][]value
 	digests            map[string]array
+	replacerPairs      map[*value][]value
 	chacha             map[*value]*mrand.ChaCha8
 	syncMaps           map[*value]*omap
 	harnessAlias       map[string]string
